@@ -9,8 +9,10 @@ func Controls() map[string]string {
 const controlSrc = `package ply
 
 import (
+	"bytes"
 	"encoding/binary"
 	"io"
+	"strings"
 
 	"github.com/EliCDavis/polyform/modeling"
 	"github.com/EliCDavis/polyform/modeling/meshops"
@@ -475,6 +477,76 @@ func (v2pr Vector2PropertyReader) verifControlLAY10GoodAscii(element Element) as
 		return &builtAsciiVector2PropertyReader{arr: make([]vector2.Float64, element.Count), xOffset: xOffset, yOffset: yOffset, scalarType: st}
 	}
 	return nil
+}
+
+// ---- SENT-1 ----------------------------------------------------------------
+
+// must fire: offset 0 is treated as "missing"
+func (v2pr Vector2PropertyReader) verifControlSENT1BadAscii(element Element) asciiPropertyReader {
+	xOffset, yOffset := -1, -1
+	var st ScalarPropertyType
+	for i, prop := range element.Properties {
+		scalar := prop.(ScalarProperty)
+		if scalar.PropertyName == v2pr.PlyPropertyX {
+			xOffset = i
+			st = scalar.Type
+		}
+		if scalar.PropertyName == v2pr.PlyPropertyY {
+			yOffset = i
+		}
+	}
+	if xOffset > 0 && yOffset >= 0 {
+		return &builtAsciiVector2PropertyReader{arr: make([]vector2.Float64, element.Count), xOffset: xOffset, yOffset: yOffset, scalarType: st}
+	}
+	return nil
+}
+
+// must stay silent: the three equivalent spellings of "found", and of "missing"
+func (v2pr Vector2PropertyReader) verifControlSENT1GoodAscii(element Element) asciiPropertyReader {
+	xOffset, yOffset := -1, -1
+	var st ScalarPropertyType
+	for i, prop := range element.Properties {
+		scalar := prop.(ScalarProperty)
+		if scalar.PropertyName == v2pr.PlyPropertyX {
+			xOffset = i
+			st = scalar.Type
+		}
+		if scalar.PropertyName == v2pr.PlyPropertyY {
+			yOffset = i
+		}
+	}
+	if xOffset == -1 || yOffset < 0 {
+		return nil
+	}
+	if xOffset != -1 && 0 <= yOffset {
+		return &builtAsciiVector2PropertyReader{arr: make([]vector2.Float64, element.Count), xOffset: xOffset, yOffset: yOffset, scalarType: st}
+	}
+	return nil
+}
+
+// ---- BYTES-1 ---------------------------------------------------------------
+
+func verifControlBYTES1Bad(data []byte) (*modeling.Mesh, error) {
+	return ReadMesh(bytes.NewReader(bytes.TrimSpace(data)))
+}
+
+func verifControlBYTES1Good(data []byte, text string) (*modeling.Mesh, error) {
+	if len(data) == 0 {
+		return ReadMesh(strings.NewReader(text))
+	}
+	raw := data
+	return ReadMesh(bytes.NewReader(raw))
+}
+
+// ---- TOKSEP-1 --------------------------------------------------------------
+
+func verifControlTOKSEP1Bad(reader asciiPropertyReader, text string, i int64) error {
+	return reader.Read(strings.Split(text, " "), i)
+}
+
+func verifControlTOKSEP1Good(reader asciiPropertyReader, text string, i int64) error {
+	cols := strings.Fields(text)
+	return reader.Read(cols[0:], i)
 }
 
 var _ = binary.LittleEndian
